@@ -17,6 +17,7 @@ import (
 // ---- uninterpreted rules ----
 
 type vUCall struct {
+	tag                   string
 	validName, obj, field string
 	failed                bool
 	clause                string
@@ -41,7 +42,7 @@ func vNum(i int) string {
 func vURule(tag string) CommonValidFn {
 	return func(errBuf *strings.Builder, validName, objName, fieldName string, tv reflect.Value) {
 		id := len(vULog)
-		c := vUCall{validName: validName, obj: objName, field: fieldName}
+		c := vUCall{tag: tag, validName: validName, obj: objName, field: fieldName}
 		if !vUNoFail && vndBool("fail"+vNum(id)) {
 			c.failed = true
 			c.clause = "<" + tag + "#" + vNum(id) + " " + objName + "." + fieldName + ">" + ErrEndFlag
@@ -55,6 +56,7 @@ func vURule(tag string) CommonValidFn {
 
 type vExp struct {
 	isCall                bool
+	who                   string // expected function object ("" = not asserted)
 	validName, obj, field string // call
 	text                  string // literal clause (with separator)
 }
@@ -72,14 +74,16 @@ type vGroup struct {
 }
 
 type vRef struct {
-	tag      string              // tag name requested for this call
-	scoped   map[reflect.Type]RM // rule sets registered for a struct type
-	unscoped RM                  // rule set without a type: outermost struct only
-	local    map[string]bool     // names given for this call
-	global   map[string]bool     // names registered globally by the harness
-	perObj   bool                // judge groups per object (property C17)
-	out      []vExp
-	groups   []*vGroup
+	tag                 string              // tag name requested for this call
+	scoped              map[reflect.Type]RM // rule sets registered for a struct type
+	unscoped            RM                  // rule set without a type: outermost struct only
+	local               map[string]bool     // names given for this call
+	global              map[string]bool     // names registered globally by the harness
+	perObj              bool                // judge groups per object (property C17)
+	localTag, globalTag map[string]string   // function object expected for a name (C16)
+	realBuiltin         map[string]string   // built-in rule -> clause text after the input echo, for values known to violate it
+	out                 []vExp
+	groups              []*vGroup
 }
 
 func vNewRef() *vRef { return &vRef{tag: "valid", perObj: true} }
@@ -203,7 +207,16 @@ func (r *vRef) rule(owner, obj, field, item string, fv reflect.Value, isStruct b
 		if fv.IsZero() {
 			return // every rule other than required skips empty values
 		}
-		r.out = append(r.out, vExp{isCall: true, validName: item, obj: obj, field: field})
+		who := ""
+		if r.local[key] { // per-call function first, then the globally registered one, then the built-in
+			who = r.localTag[key]
+		} else if r.global[key] {
+			who = r.globalTag[key]
+		} else if suffix, ok := r.realBuiltin[key]; ok {
+			r.lit(vQuotePath(obj, field) + "input \"" + fv.String() + "\", " + suffix + ErrEndFlag)
+			return
+		}
+		r.out = append(r.out, vExp{isCall: true, who: who, validName: item, obj: obj, field: field})
 	case key == Required:
 		if vEmpty(fv) {
 			msg := vRuleMsg(item)
@@ -401,6 +414,9 @@ func vCheckAgainstRef(tag string, err error, r *vRef) {
 		c := vULog[j]
 		j++
 		vAssert(c.validName == e.validName && c.obj == e.obj && c.field == e.field, tag+": rule order, rule text and field path of each evaluation")
+		if e.who != "" {
+			vAssert(c.tag == e.who, tag+": rule name resolves to the per-call function, else the global one, else the built-in")
+		}
 		if c.failed {
 			want += c.clause
 		}
